@@ -34,6 +34,8 @@ def run(rep):
         "solver variables of every reaction of the copy encode its bounds (fdf97f9). Stated precondition: the original's lists are "
         "well formed, its reactions' metabolites / genes and its groups' members are members of its lists (C02 invariant), genes of a "
         "reaction = the model's genes named by its rule, valid bounds, no exception from deepcopy(solver) (Cplex fallback not covered). "
+        "FINDING outside that assumption (reported in the module docstring with its native reproduction, not absorbed): a model read from "
+        "SBML carries the additional attribute `_sbml`, which Model.copy shares by reference with the original. "
         "What stays with the bounded driver: that a deep copy has the CONTENT of its source and the optimum of the copied solver "
         "(snapshot equality of copy/deepcopy/pickle incl. the solver problem, then every edit and depth-2 edit sequence incl. in-place "
         "edits of notes/annotations applied to one side with the other side compared, reaction arithmetic operands unchanged)."),
